@@ -32,7 +32,7 @@ def decKind (j : Json) : Except String ClsKind := do
   match k with
   | "scalar" => return .scalar (← decScalar (← fieldStr j "s"))
   | "none" => return .noneType
-  | "opaque" => return .opaque
+  | "opaque" => return .unknown
   | "newtype" => return .newtype (← decHint (← field j "sup"))
   | "model" =>
     let fs ← (← fieldArr j "fields").mapM fun f => do
@@ -45,7 +45,7 @@ def decUniv (j : Json) : Except String Univ := do
     return ((← fieldNat c "u"), (← decKind c), (← fieldNat c "name"))
   let strs ← (← fieldArr j "strs").mapM asStr
   return {
-    kind := fun u => ((cs.find? (fun c => c.1 == u)).map (·.2.1)).getD .opaque
+    kind := fun u => ((cs.find? (fun c => c.1 == u)).map (·.2.1)).getD .unknown
     nameKey := fun u => ((cs.find? (fun c => c.1 == u)).map (·.2.2)).getD 0
     strOf := fun n => strs.getD n ""
     bytesUid := ← fieldNat j "bytes"
